@@ -29,8 +29,21 @@ def fill(claim, na):
           'norm/energy/charge conservation are not decided.',
           'trusts python ast, statically computed C3 MRO, sa/linform.py exact polynomial '
           'arithmetic; name-based producer table for error-returning calls', 'C14')
+    claim('C18', 'exhaustive typestate (abstract interpretation of save_results over file states, '
+          'closed under crash and restart) + CFG order rules + writer/reader key agreement',
+          PARTIAL + 'First sentence: the file effects (exists/unlink/rename/write) are extracted '
+          'from the current source of Simulation.save_results and executed over all reachable '
+          '(output, backup) states in {absent, unloadable, complete}^2 with a crash after every '
+          'effect and inside the write; from every state holding a complete file every crash '
+          'point must keep one (exhaustive). Second sentence, partially: ordering of '
+          'run/resume_run (no duplicate initial measurement, measurements connected, '
+          'final save), checkpoint connection, SIGINT save-before-raise, measurement arrays '
+          'restored to lists, resume_data keys read unconditionally are written along the MRO. '
+          'Equality of resumed and uninterrupted numerical results is not decided.',
+          'file system crash-consistent per operation (rename/unlink atomic, hdf5_io.save '
+          'non-atomic); safe_write=False excluded as documented unsafe', 'C18')
     for pid in ['C01', 'C02', 'C03', 'C04', 'C05', 'C06', 'C07', 'C09', 'C10', 'C11', 'C12',
-                'C13', 'C15', 'C16', 'C17', 'C18', 'C19']:
+                'C13', 'C15', 'C16', 'C17', 'C19']:
         na(pid, 'static rule planned in DESIGN.md but not built yet (work in progress); not '
            'claimed until its check exists')
     na('C08', 'every clause quantifies over numerical values (expectation values, overlaps, Born '
